@@ -328,3 +328,37 @@ Definition obs_raw (p : prov) (w : N) (n : nat) (is_exact is_write : bool) : lis
   else
     fin (range_read p r n)
         (fun br => (0 :: Z.of_nat (length (fst br)) :: map Z.of_N (fst br) ++ [-7] ++ concat (map (fun kv => [Z.of_N (fst kv); Z.of_N (snd kv)]) (rev (p_writes p))))%Z).
+
+(* ---------- the device-level provider (DeviceEeprom::write_word) ---------- *)
+(* A device that answers the next [errs] write commands with the command-error flag.  One word:
+   the write is repeated while the flag comes back and fewer than 20 retries were made; then the
+   loop ends - with Ok(()) in both cases.  Result: stored?, write commands issued, errors left. *)
+Definition dev_write_word (errs : nat) : bool * nat * nat :=
+  if (errs <=? 20)%nat then (true, S errs, 0%nat) else (false, 21%nat, (errs - 21)%nat).
+
+(* eeprom_write_dangerously of [payload] at word [w] against such a device: the words stored, in
+   order, and the number of write commands *)
+Fixpoint dev_write_words (errs : nat) (w : N) (payload : list N) (fuel : nat) : list (N * N * N) * nat :=
+  match fuel with
+  | O => ([], 0%nat)
+  | S f =>
+    match payload with
+    | [] => ([], 0%nat)
+    | b0 :: rest0 =>
+      let '(b1, rest) := match rest0 with [] => (0, []) | b1 :: rest => (b1, rest) end in
+      let '(stored, cmds, errs') := dev_write_word errs in
+      let '(ws, n) := dev_write_words errs' (w + 1) rest f in
+      ((if stored then [(w, b0, b1)] else []) ++ ws, (cmds + n)%nat)
+    end
+  end.
+
+Definition obs_dev_write (errs : nat) (w : N) (payload : list N) : list Z :=
+  let '(ws, n) := dev_write_words errs w payload (S (length payload)) in
+  (Z.of_nat n :: concat (map (fun x => match x with (a, b0, b1) => [Z.of_N a; Z.of_N b0; Z.of_N b1] end) ws))%Z.
+
+(* eeprom_write_dangerously with an arbitrary payload over a provider that stores every word *)
+Definition obs_write (p : prov) (w : N) (payload : list N) : list Z :=
+  match range_write_all p (start_at w (N.of_nat (length payload))) payload with
+  | Ok (p', _) => (0 :: concat (map (fun kv => [Z.of_N (fst kv); Z.of_N (snd kv)]) (rev (p_writes p'))))%Z
+  | Err e => ((-1) :: obs_err e)%Z | Panic _ => [-98]%Z | Hang => [-99]%Z
+  end.
